@@ -76,6 +76,9 @@ def run (payload : String) : String :=
   match payload.splitOn ";" with
   | [] => "bad-case"
   | h :: ops =>
+    -- `…:j` (two requests joined in one task share a waker): the model gives every consumer a waker of its own;
+    -- those cases are judged by the check's oracle on the implementation only
+    if h.endsWith ":j" then "unsupported" else
     match parseHeader h with
     | none => "bad-case"
     | some (sync, k, s0) =>
